@@ -25,6 +25,12 @@ def plan(tier, seed):
     for key, cls in sorted(discover_classes().items()):
         cases.append({"kind": "class", "key": key, "cost": 3.0 if dataclasses.is_dataclass(cls) else 1.0})
     cases.append({"kind": "helpers", "cost": 4.0})
+    reps = 3 if tier == "quick" else 60
+    for key, cls in sorted(discover_classes().items()):
+        if dataclasses.is_dataclass(cls) and not cls.__name__.startswith("_"):
+            for chunk in range(1 if tier == "quick" else 4):
+                cases.append({"kind": "random", "key": key, "reps": reps // (1 if tier == "quick" else 4), "chunk": chunk,
+                              "cost": 0.4 * reps / (1 if tier == "quick" else 4)})
     for fx in (MODEL_FIXTURES if tier == "thorough" else MODEL_FIXTURES[:2]):
         for dyn in ("bw_ff", "analytic"):
             cases.append({"kind": "model", "fixture": fx, "dynamics": dyn, "cost": 8.0})
@@ -52,6 +58,9 @@ def _maps(e, pool):
         out.append(("sym->expr", {s: fresh ** 2 + sp.Rational(1, 3)}))
     if len(scal) >= 2:
         out.append(("simultaneous", {scal[0]: scal[1] + 1, scal[1]: sp.Rational(3, 2)}))
+    if scal:
+        # a symbol replaced by an unevaluated expression (the replacement itself must unfold)
+        out.insert(0, ("sym->unevaluated", {scal[-1]: pool.scalar("nested", len(scal))}))
     amaps = [("array->array", {a: pool.k}) for a in arr[:1]]
     if len(arr) >= 2:
         amaps.append(("array->array", {arr[0]: arr[1], arr[1]: pool.k}))
@@ -197,6 +206,18 @@ def run_case(case, rec, ctx):
                 nk = f"{type(node).__module__}.{type(node).__qualname__}"
                 if type(node).__name__.startswith("_") and sh.startswith(("symbol", "nested")):
                     check_instance(rec, ctx, node, nk, f"harvested:{sh.split('/')[0]}", rng)
+        return
+    if case["kind"] == "random":
+        key = case["key"]
+        cls = ctx["classes"][key]
+        r2 = np.random.default_rng([ctx["seed"], 14, 77, case["idx"]])
+        for k in range(case["reps"]):
+            try:
+                inst = exprs.random_instance(cls, ctx["pool"], r2)
+            except Exception as exc:  # noqa: BLE001
+                rec.check(False, "construction", f"{cls.__name__}: constructing a random argument combination raised {exc!r}", None, {"cls": cls.__name__, "shape": "random"})
+                continue
+            check_instance(rec, ctx, inst, key, "random", rng)
         return
     if case["kind"] == "helpers":
         for k, sh, inst in exprs.helper_instances(ctx["pool"]):
